@@ -307,6 +307,8 @@ func c01plan(tier string, seed int64) []run.Job {
 		jobs = append(jobs, run.Job{Family: "mutual", Seed: seed*100000 + 50000 + int64(i), N: per, P: map[string]int{"inputs": 6, "maxlen": 10}})
 		// hidden left recursion behind nullable prefixes of every result-list layout (zero-width alternative first / last / repeated)
 		jobs = append(jobs, run.Job{Family: "hidden", Seed: seed*100000 + 55000 + int64(i), N: per / 2, P: map[string]int{"inputs": 6, "maxlen": 9}})
+		// grammars over string literals (terminal.String): a literal is read more than once at one position
+		jobs = append(jobs, run.Job{Family: "strings", Seed: seed*100000 + 58000 + int64(i), N: per / 4, P: map[string]int{"inputs": 6}})
 		// lists built by a hand-written combinator, cached by Memoize and extended by several consumers at one position
 		jobs = append(jobs, run.Job{Family: "userlist", Seed: seed*100000 + 57000 + int64(i), N: per / 8, P: map[string]int{"inputs": 6}})
 	}
